@@ -19,6 +19,8 @@ pub fn kind_name(k: ErrorKind) -> String {
         ErrorKind::ConnectionReset => "(user 2)".into(),
         ErrorKind::TimedOut => "(user 3)".into(),
         ErrorKind::BrokenPipe => "(user 4)".into(),
+        ErrorKind::WouldBlock => "(user 5)".into(),
+        ErrorKind::AddrInUse => "(user 6)".into(),
         other => format!("(unknown {:?})", other).replace(' ', "_"),
     }
 }
@@ -113,6 +115,7 @@ pub fn show_err(e: &Error) -> String {
 
 static DEADLINE: std::sync::atomic::AtomicU64 = std::sync::atomic::AtomicU64::new(0);
 static WATCHDOG: std::sync::Once = std::sync::Once::new();
+static WATCH: std::sync::Mutex<(String, String)> = std::sync::Mutex::new((String::new(), String::new()));
 
 pub struct Sink {
     cases: BufWriter<File>,
@@ -151,11 +154,16 @@ impl Sink {
             let _ = std::fs::write(format!("{}/current.txt", dir), case);
         }
     }
-    /// like `announce`, with a time limit: if the case is still running after `secs` seconds the
-    /// process exits with status 98 (the announced case is then reported as not terminating in
-    /// bounded time).  `done` lifts the limit.
+    /// a time limit for the case that is about to run, without touching the disk: if the case is
+    /// still running after `secs` seconds the watchdog thread records it in `current.txt` and the
+    /// process exits with status 98 (reported as "did not answer in bounded time").  `done` lifts it.
     pub fn announce_timed(&mut self, case: &str, secs: u64) {
-        self.announce(case);
+        if let Some(dir) = &self.dir {
+            let mut w = WATCH.lock().unwrap();
+            w.0 = format!("{}/current.txt", dir);
+            w.1.clear();
+            w.1.push_str(case);
+        }
         let now = std::time::SystemTime::now().duration_since(std::time::UNIX_EPOCH).unwrap().as_millis() as u64;
         DEADLINE.store(now + secs * 1000, std::sync::atomic::Ordering::SeqCst);
         WATCHDOG.call_once(|| {
@@ -165,6 +173,8 @@ impl Sink {
                 if d != 0 {
                     let now = std::time::SystemTime::now().duration_since(std::time::UNIX_EPOCH).unwrap().as_millis() as u64;
                     if now > d {
+                        let w = WATCH.lock().unwrap();
+                        let _ = std::fs::write(&w.0, format!("{} [no answer within the time limit]", w.1));
                         eprintln!("harness: time limit exceeded on the announced case");
                         std::process::exit(98);
                     }
